@@ -540,7 +540,7 @@ def session_walks(ctx, rng):
     from ..core import run_tlc
     q = ctx.tier == 'quick'
     res = run_tlc('MC_PosteriorSession', 'SIM_PosteriorSession_%s.cfg' % ctx.tier, workers=1,
-                  simulate='num=%d' % (80 if q else 800), depth=(6 if q else 8) + 3, seed=ctx.seed + 17)
+                  simulate='num=%d' % (80 if q else 600), depth=(6 if q else 8) + 3, seed=ctx.seed + 17)
     ctx.add_tlc('simulate-sessions', res, counts=False)
     if res.violated:
         raise Machinery('PosteriorSession violates %s in simulation' % res.violated)
@@ -550,7 +550,7 @@ def session_walks(ctx, rng):
         bynp.setdefault(w['init'][3], []).append(w)
     if not bynp or len(bynp) < 2:
         raise Machinery('TLC produced session walks for process counts %r only' % sorted(bynp))
-    per = 4 if q else 40
+    per = 4 if q else 30
     chosen = {}
     for npr, ws in sorted(bynp.items()):
         ws = sorted(ws, key=lambda w: json.dumps(w, sort_keys=True))
